@@ -12,6 +12,7 @@ def judge_prog(req, impl, model, spec, focus=None):
     """corr: impl == model (loop contents ignored); oracle: accept/reject as the specification says and,
     when accepted, every wire value, register, memory byte and status of every cycle as the specification says."""
     cats = []
+    spec, _, verdict = spec.partition("\x00")
     iacc = impl.startswith("ok")
     sacc = spec.startswith("ok")
     cats.append("accepted" if iacc else "rejected")
@@ -44,6 +45,11 @@ def judge_prog(req, impl, model, spec, focus=None):
         if focus == "names" and m.group(2) not in impl:
             oracle = False
             what = "rejected, but no diagnostic names the injected wire %s: %s" % (m.group(2), impl[:200])
+    if verdict == "sched-INVALID":
+        oracle = False
+        what = "the schedule produced by the real code is not a valid evaluation order (read before write, double writer, or state change too early)"
+    if verdict:
+        cats.append(verdict)
     t = re.search(r"\(text ([^)]*)\)", req)
     key = t.group(1) if t else req
     return {"corr": corr, "oracle": oracle, "what": what, "key": key, "cats": cats}
